@@ -46,11 +46,13 @@ P = {
  'C11': dict(
   text="Lean theorems: polymod = BIP173 BCH residue, checksum_verifies, convertbits padding rule and round trip, "
        "decode accepts ⇔ Spec.ValidSegwit, encode_decode for all versions/lengths, mixed case rejected, and the code "
-       "distance: any 1–2 substitutions anywhere in a valid ≤90-char address are rejected (detects_le2, kernel "
-       "checked); 3–4 substitutions (detects_le4) use native_decide in Props/C11Native.lean only. Tied by T1 (charset, "
-       "generator read from the AST) and exhaustive single/sampled-or-exhaustive double substitutions.",
-  note=TB + "detects_le4/check3_true/check4_true additionally trust the Lean compiler (native_decide axioms), isolated in one file.",
-  tech="Lean 4 proof (GF(2)-linear algebra of the BCH code; decide +kernel; native_decide for weight 3–4) + tables + correspondence"),
+       "distance: any 1–4 substitutions anywhere in a valid ≤90-char address are rejected (detects_le2, "
+       "detects_le4 — both kernel-checked with the standard axioms: the weight-3/4 bound is reduced to 963 "
+       "`decide +kernel` shard theorems over a generated, untrusted look-up table). Truncation/extension/insertion/"
+       "deletion are covered by the run only (the BCH code guarantees nothing there). Tied by T1 (charset, generator "
+       "read from the AST) and exhaustive single/sampled-or-exhaustive double substitutions.",
+  note=TB + "No native_decide anywhere.",
+  tech="Lean 4 proof (GF(2)-linear algebra of the BCH code; sharded decide +kernel for the distance bound) + tables + correspondence"),
  'C12': dict(
   text="Lean theorems over all selection histories and all strings: SelectParams invariant (params = coreparams = last "
        "selected), round trip script→address→text→address→script for 4 templates × 4 chains with the prescribed "
@@ -140,7 +142,7 @@ P = {
   note=TB + "Partial: the exact size for (nElements, nFPRate) is not claimed (floating point).",
   tech="Lean 4 proof (UInt32 wrap-around = masked Nat arithmetic; monotone-bits invariant over histories) + tables + correspondence"),
  'C13': dict(
-  text="Proof for what python-bitcoinlib itself computes (the glue), partial overall. Lean theorems: strict-DER "
+  text="PARTIAL: proof for what python-bitcoinlib itself computes (the glue); the clauses about the curve (pubkey = k·G, verify ⇔ reference, is_fullyvalid ⇔ SEC1 point) are tied by the correspondence run only. Lean theorems: strict-DER "
        "encode/decode round trip and strictness (der_roundtrip, der_strict), CompareBigEndian = sign of the integer "
        "difference, IsLowDERSignature ⇔ 0 < s ≤ n/2 on strict DER with no IndexError (isLowDer_iff), low-S "
        "normalisation spec (∈ {s, n−s}, low, idempotent), CECKey.sign = strict DER of (r, lowS s), WIF payload layout "
@@ -152,7 +154,7 @@ P = {
   note=TB + "Not proved: that the Lean secp256k1 formulas form a group of order n; OpenSSL behaviour; random nonces. These are covered by T2 only.",
   tech="Lean 4 proof of the glue (DER, low-S, WIF, header bytes) + abstract ECDSA algebra + correspondence against a Lean reference curve"),
  'C14': dict(
-  text="Proof for the glue, partial overall. Lean theorems: message digest = SHA-256d of varint-prefixed magic ‖ "
+  text="PARTIAL: proof for the glue; recovery of the signer's key and rejection of other messages are tied by the correspondence run only. Lean theorems: message digest = SHA-256d of varint-prefixed magic ‖ "
        "varint-prefixed UTF-8 message for any length (msg_digest_eq_spec), header byte 27+recid+4·compressed and its "
        "inverse (header_roundtrip), sign_compact layout (r‖s 32-byte big-endian, recid < 4), VerifyMessage's decision "
        "(true only for the address of the recovered key and the same message), abstract recovery algebra "
@@ -186,7 +188,7 @@ P = {
   note=TB + "HashesOK (hash outputs ≤ 520 bytes) is a hypothesis; OpenSSL's tolerant DER parsing is outside the model (domain restriction of the property).",
   tech="Lean 4 proof (dead-branch / invariant by induction over interpreter steps) + correspondence on arbitrary byte strings"),
  'C05': dict(
-  text="Lean theorems. Commitment table, exact, for all transactions: two transactions that agree on every part the "
+  text="PARTIAL (cryptographic half assumed). Lean theorems. Commitment table, exact, for all transactions: two transactions that agree on every part the "
        "hash type commits to have the same legacy digest (agree_sighash_eq, uncommitted_edit_preserves — no "
        "hypothesis); a committed edit that changes a committed part changes the hashed message "
        "(committed_edit_changes, from injectivity of the wire encoding = C01's round trip) and hence the digest under "
